@@ -146,7 +146,9 @@ type Doc struct {
 }
 
 // genDoc draws a valid document in the given format.
-func genDoc(r *prng.Rand, formatText bool, maxTop int) Doc { return genDocBig(r, formatText, maxTop, false) }
+func genDoc(r *prng.Rand, formatText bool, maxTop int) Doc {
+	return genDocBig(r, formatText, maxTop, false)
+}
 
 // genDocBig is genDoc that, when big is set, sometimes includes a lob well beyond 64 KiB (only scenarios whose cost
 // per document does not grow with the square of its length ask for it).
